@@ -62,6 +62,8 @@ def pattern_strategy(pat, lo, hi):
     if kind == 'idcolon':
         return st.text(st.sampled_from(['a', '1', ' ', ':', 'é', '"', '\\']), min_size=max(1, lo - 3),
                        max_size=max(1, cap - 3)).map(lambda s: 'id:' + s)
+    if kind == 'noquote':
+        return txt(st.sampled_from(['a', 'b', ' ', "'", '\\', 'é']), a=max(lo, 1))
     raise AssertionError(kind)
 
 
